@@ -674,6 +674,69 @@ func (g *gctx) genInput(isMap bool) (chunks []*V, keys []int) {
 	return
 }
 
+// variant: a second input for the same compiled object — the same keys and nesting (the graph
+// was generated for them), other strings, another chunking
+func (g *gctx) variant(chunks []*V) []*V {
+	cs := make([]any, len(chunks))
+	for i, v := range chunks {
+		cs[i] = v.toGo()
+	}
+	x, err := concatAny(cs)
+	if err != nil {
+		return nil
+	}
+	var re func(x any) any
+	re = func(x any) any {
+		switch t := x.(type) {
+		case string:
+			return g.genString() + "~"
+		case map[string]string:
+			m := map[string]string{}
+			for _, k := range sortedKeysS(t) {
+				m[k] = g.genString() + "~"
+			}
+			return m
+		case map[string]any:
+			m := map[string]any{}
+			for _, k := range sortedKeys(t) {
+				m[k] = re(t[k])
+			}
+			return m
+		}
+		return x
+	}
+	var out []*V
+	for _, c := range splitVal(g.r.Intn(4), re(x)) {
+		out = append(out, fromGo(c))
+	}
+	return out
+}
+
+func sortedKeysS(m map[string]string) []string {
+	ks := make([]string, 0, len(m))
+	for k := range m {
+		ks = append(ks, k)
+	}
+	sortStrings(ks)
+	return ks
+}
+
+func sortStrings(a []string) {
+	for i := 1; i < len(a); i++ {
+		for j := i; j > 0 && a[j] < a[j-1]; j-- {
+			a[j], a[j-1] = a[j-1], a[j]
+		}
+	}
+}
+
+// second: in 1/3 of the graph cases the compiled object is called on a second input as well
+func (g *gctx) second(c *Case) *Case {
+	if g.r.Chance(1, 3) {
+		c.Chunks2 = g.variant(c.Chunks)
+	}
+	return c
+}
+
 func (engine) Generate(r *lib.Rng, tier string, i int) any {
 	g := &gctx{r: r, budget: 7, maxDepth: 2}
 	if tier == "thorough" {
@@ -721,7 +784,7 @@ func (engine) Generate(r *lib.Rng, tier string, i int) any {
 		}
 		g.chooseFailure(r, st.p)
 		c.CB = r.Chance(1, 4)
-		return c
+		return g.second(c)
 	}
 	if front == "chain" {
 		tin := r.Chance(2, 5)
@@ -730,7 +793,7 @@ func (engine) Generate(r *lib.Rng, tier string, i int) any {
 		c := &Case{Kind: "prog", Front: "chain", Prog: st.p, Chunks: chunks}
 		g.chooseFailure(r, st.p)
 		c.CB = r.Chance(1, 4)
-		return c
+		return g.second(c)
 	}
 	switch r.Intn(30) {
 	case 0:
@@ -778,7 +841,7 @@ func (engine) Generate(r *lib.Rng, tier string, i int) any {
 
 	g.chooseFailure(r, c.Prog)
 	c.CB = r.Chance(1, 4)
-	return c
+	return g.second(c)
 }
 
 // failure: in 1/5 of the cases one executable object is chosen to fail, at call time or mid-stream
